@@ -39,9 +39,25 @@ const (
 	tZ            // *big.Int by value          (Lean Int, exact)
 	tR            // slip.Object holding an exact integer result (Lean Rep)
 	tO            // slip.Object not yet assigned
+	tQ            // an exact real value: *big.Rat by value, or a real operand of a comparison (Lean Rat)
 )
 
-func (t nty) String() string { return [...]string{"int64", "uint64", "bool", "big.Int", "object", "unassigned"}[t] }
+func (t nty) String() string {
+	return [...]string{"int64", "uint64", "bool", "big.Int", "object", "unassigned", "exact real"}[t]
+}
+
+// leanType is the Lean type a Go value of the kind is translated to.
+func (t nty) leanType() string {
+	switch t {
+	case tB:
+		return "Bool"
+	case tR:
+		return "Rep"
+	case tQ:
+		return "Rat"
+	}
+	return "Int"
+}
 
 type nenv map[string]nty
 
@@ -71,6 +87,9 @@ type ntarget struct {
 	some    bool     // wrap returned values in `some (…)` (used together with panics = "none")
 	doc     string
 	fuel    string // Lean expression for the fuel of a `for cond` loop (an extra parameter when "fuel")
+	nilLean string // Lean expression for `return nil` ("" = nil is the boolean false)
+	fall    string // Lean expression for falling off the end of the located statements ("" = the named results / outs)
+	oracles map[string][]nparam // calls with two results whose values are parameters of the definition: "callee(arg)" -> (value, ok)
 }
 
 type nparam struct {
@@ -306,7 +325,7 @@ func (t *ntr) binary(x *ast.BinaryExpr, e nenv, want nty) (string, nty, error) {
 		if x.Op == token.NEQ {
 			op = "!="
 		}
-		if ta == tB || ta == tI || ta == tU || ta == tZ {
+		if ta == tB || ta == tI || ta == tU || ta == tZ || ta == tQ {
 			return "(" + a + " " + op + " " + b + ")", tB, nil
 		}
 	case token.LSS, token.LEQ, token.GTR, token.GEQ:
@@ -450,6 +469,19 @@ func (t *ntr) call(x *ast.CallExpr, e nenv, want nty) (string, nty, error) {
 			parts = append(parts, s)
 		}
 		return "(" + strings.Join(parts, " ") + ")", k.ret, nil
+	}
+	// big.Rat.Cmp on exact values
+	if se, ok := x.Fun.(*ast.SelectorExpr); ok && se.Sel.Name == "Cmp" && len(x.Args) == 1 {
+		if id, isId := se.X.(*ast.Ident); isId && e[id.Name] == tQ {
+			b, tb, err := arg(0, tQ)
+			if err != nil {
+				return "", 0, err
+			}
+			if tb != tQ {
+				return "", 0, t.errf(x, "Cmp with a value of kind %v", tb)
+			}
+			return "(cmpRat " + nIdent(id.Name) + " " + b + ")", tI, nil
+		}
 	}
 	// math/big methods by value
 	if se, ok := x.Fun.(*ast.SelectorExpr); ok {
@@ -632,6 +664,9 @@ func (t *ntr) retStmt(r *ast.ReturnStmt, e nenv) (string, error) {
 		}
 		return t.wrapSome(tuple(parts)), nil
 	}
+	if t.tgt.nilLean != "" && selName(r.Results[0]) == "nil" {
+		return t.tgt.nilLean, nil
+	}
 	s, ty, err := t.expr(r.Results[0], e, t.tgt.ret)
 	if err != nil {
 		return "", err
@@ -771,6 +806,24 @@ func (t *ntr) stmts(list []ast.Stmt, e nenv, brk, k nkont, d int) (string, error
 					return "", err
 				}
 				return let(name, v, ty)
+			}
+		}
+		if len(ts.Lhs) == 2 && len(ts.Rhs) == 1 {
+			// value, ok := oracle(arg): both results are parameters of the definition
+			if c, isCall := ts.Rhs[0].(*ast.CallExpr); isCall && len(c.Args) == 1 {
+				if o, found := t.tgt.oracles[selName(c.Fun)+"("+selName(c.Args[0])+")"]; found {
+					out := ""
+					e2 := e
+					for i, l := range ts.Lhs {
+						out += fmt.Sprintf("%slet %s := %s;\n", ind(d), nIdent(selName(l)), o[i].lean)
+						e2 = e2.with(selName(l), o[i].ty)
+					}
+					r, err := t.stmts(rest, e2, brk, k, d)
+					if err != nil {
+						return "", err
+					}
+					return out + r, nil
+				}
 			}
 		}
 		if len(ts.Lhs) == len(ts.Rhs) && (ts.Tok == token.ASSIGN || ts.Tok == token.DEFINE) {
@@ -966,15 +1019,7 @@ func (t *ntr) forStmt(f *ast.ForStmt, rest []ast.Stmt, e nenv, brk, k nkont, d i
 	}
 	sort.Strings(free)
 	const name = "@LOOP@" // replaced below: identical loops (duplicated continuations) share one definition
-	lty := func(ty nty) string {
-		if ty == tB {
-			return "Bool"
-		}
-		if ty == tR {
-			return "Rep"
-		}
-		return "Int"
-	}
+	lty := func(ty nty) string { return ty.leanType() }
 	var stTypes, stNames []string
 	for _, v := range state {
 		stTypes = append(stTypes, lty(e[v]))
@@ -1129,6 +1174,15 @@ func fixfixBody(list []ast.Stmt) (body []ast.Stmt, x, y string, ok bool) {
 	return nil, "", "", false
 }
 
+func isRealAssert(s ast.Stmt) bool {
+	as, ok := s.(*ast.AssignStmt)
+	if !ok || len(as.Rhs) != 1 {
+		return false
+	}
+	ta, ok := as.Rhs[0].(*ast.TypeAssertExpr)
+	return ok && selName(ta.Type) == "slip.Real"
+}
+
 func (tg *ntarget) translate(repo string, known map[string]*ntarget) (string, error) {
 	fset := token.NewFileSet()
 	file, err := parser.ParseFile(fset, filepath.Join(repo, tg.file), nil, 0)
@@ -1150,6 +1204,11 @@ func (tg *ntarget) translate(repo string, known map[string]*ntarget) (string, er
 	e := nenv{}
 	for _, p := range tg.params {
 		e[p.goName] = p.ty
+	}
+	for _, o := range tg.oracles {
+		for _, p := range o {
+			e[p.lean] = p.ty
+		}
 	}
 	var body, after []ast.Stmt
 	switch tg.locate {
@@ -1180,7 +1239,49 @@ func (tg *ntarget) translate(repo string, known map[string]*ntarget) (string, er
 		if !ok || x != tg.params[0].goName || y != tg.params[1].goName {
 			return "", fmt.Errorf("%s: %s has no fixnum × fixnum fast path over (%s, %s)", tg.file, tg.fn, tg.params[0].goName, tg.params[1].goName)
 		}
+	case "rangebody":
+		// the body of the first `for … := range …` loop of the function
+		for _, st := range fd.Body.List {
+			if rs, ok := st.(*ast.RangeStmt); ok {
+				body = rs.Body.List
+				break
+			}
+		}
+		if body == nil {
+			return "", fmt.Errorf("%s: %s has no range loop", tg.file, tg.fn)
+		}
+	case "realreal":
+		// the body of `if _, ok := x.(slip.Real); ok { if _, ok = y.(slip.Real); ok { BODY } }`
+		for _, st := range fd.Body.List {
+			if o, ok := st.(*ast.IfStmt); ok && len(o.Body.List) == 1 {
+				if in, ok2 := o.Body.List[0].(*ast.IfStmt); ok2 && isRealAssert(o.Init) && isRealAssert(in.Init) {
+					body = in.Body.List
+				}
+			}
+		}
+		if body == nil {
+			return "", fmt.Errorf("%s: %s has no real × real branch", tg.file, tg.fn)
+		}
 	default:
+		if callee, ok := strings.CutPrefix(tg.locate, "from:"); ok {
+			// the statements from the first `… := callee(…)` up to and including the next switch
+			start := -1
+			for i, st := range fd.Body.List {
+				if as, isAs := st.(*ast.AssignStmt); isAs && len(as.Rhs) == 1 && start < 0 {
+					if c, isCall := as.Rhs[0].(*ast.CallExpr); isCall && selName(c.Fun) == callee {
+						start = i
+					}
+				}
+				if _, isSw := st.(*ast.SwitchStmt); isSw && start >= 0 {
+					body = fd.Body.List[start : i+1]
+					break
+				}
+			}
+			if body == nil {
+				return "", fmt.Errorf("%s: %s has no `… := %s(…)` followed by a switch", tg.file, tg.fn, callee)
+			}
+			break
+		}
 		return "", fmt.Errorf("unknown locate %q", tg.locate)
 	}
 	var pre string
@@ -1193,7 +1294,13 @@ func (tg *ntarget) translate(repo string, known map[string]*ntarget) (string, er
 		}
 	}
 	end := func(e2 nenv, d2 int) (string, error) {
-		fall := func(e3 nenv, d3 int) (string, error) { s, err := t.outsExpr(e3, fd); return ind(d3) + s + "\n", err }
+		fall := func(e3 nenv, d3 int) (string, error) {
+			if tg.fall != "" {
+				return ind(d3) + tg.fall + "\n", nil
+			}
+			s, err := t.outsExpr(e3, fd)
+			return ind(d3) + s + "\n", err
+		}
 		if len(after) > 0 {
 			return t.stmts(after, e2, nil, fall, d2)
 		}
@@ -1213,10 +1320,18 @@ func (tg *ntarget) translate(repo string, known map[string]*ntarget) (string, er
 		b.WriteString(" (fuel : Nat)")
 	}
 	for _, p := range tg.params {
-		fmt.Fprintf(&b, " (%s : Int)", nIdent(p.lean))
+		fmt.Fprintf(&b, " (%s : %s)", nIdent(p.lean), p.ty.leanType())
 	}
 	fmt.Fprintf(&b, " : %s :=\n%s%s\n", tg.retLean, pre, out)
 	return b.String(), nil
+}
+
+func qp(names ...string) []nparam {
+	var out []nparam
+	for _, n := range names {
+		out = append(out, nparam{goName: n, lean: n, ty: tQ})
+	}
+	return out
 }
 
 func ip(names ...string) []nparam {
@@ -1271,6 +1386,22 @@ func numTargets() []*ntarget {
 		{lean: "minuspFix", file: "pkg/cl/minusp.go", fn: "Minusp.Call", locate: "case", params: ip("ta"), ret: tB, retLean: "Bool", doc: "fixnum branch of minusp"},
 		{lean: "evenpFix", file: "pkg/cl/evenp.go", fn: "Evenp.Call", locate: "case", params: ip("ta"), ret: tB, retLean: "Bool", doc: "fixnum branch of evenp"},
 		{lean: "oddpFix", file: "pkg/cl/oddp.go", fn: "Oddp.Call", locate: "case", params: ip("ta"), ret: tB, retLean: "Bool", doc: "fixnum branch of oddp"},
+		{lean: "compareDispatch", file: "pkg/cl/number.go", fn: "compareReals", locate: "from:rationalValue",
+			params: []nparam{{"vx", "vx", tQ}, {"vy", "vy", tQ}, {"xrat", "xrat", tB}, {"yrat", "yrat", tB}, {"xfin", "xfin", tB}, {"yfin", "yfin", tB}},
+			oracles: map[string][]nparam{
+				"rationalValue(x)": {{"", "vx", tQ}, {"", "xrat", tB}}, "rationalValue(y)": {{"", "vy", tQ}, {"", "yrat", tB}},
+				"finiteFloatValue(x)": {{"", "vx", tQ}, {"", "xfin", tB}}, "finiteFloatValue(y)": {{"", "vy", tQ}, {"", "yfin", tB}}},
+			ret: tI, retLean: "Option Int", some: true, fall: "none",
+			doc: "dispatch of compareReals after the fixnum fast path: vx, vy = exact values of x and y; xrat/yrat = the operand is an integer or a ratio; xfin/yfin = it is a finite float; none = left to the float × float comparison"},
+		{lean: "ltBody", file: "pkg/cl/lt.go", fn: "Lt.Call", locate: "rangebody", params: qp("target", "arg"), outs: qp("target"), ret: tQ, retLean: "Option Rat", some: true, nilLean: "none",
+			doc: "loop body of <: none = the chain fails, some t = go on with t as the value to compare the next argument with"},
+		{lean: "lteBody", file: "pkg/cl/lte.go", fn: "Lte.Call", locate: "rangebody", params: qp("target", "arg"), outs: qp("target"), ret: tQ, retLean: "Option Rat", some: true, nilLean: "none", doc: "loop body of <="},
+		{lean: "gtBody", file: "pkg/cl/gt.go", fn: "Gt.Call", locate: "rangebody", params: qp("target", "arg"), outs: qp("target"), ret: tQ, retLean: "Option Rat", some: true, nilLean: "none", doc: "loop body of >"},
+		{lean: "gteBody", file: "pkg/cl/gte.go", fn: "Gte.Call", locate: "rangebody", params: qp("target", "arg"), outs: qp("target"), ret: tQ, retLean: "Option Rat", some: true, nilLean: "none", doc: "loop body of >="},
+		{lean: "sameReal", file: "pkg/cl/same.go", fn: "same", locate: "realreal", params: qp("x", "y"), ret: tQ, retLean: "Option Rat", some: true, nilLean: "none",
+			doc: "same(x, y) on two reals: none = different, some y = equal (the value the next argument of = is compared with)"},
+		{lean: "maxBody", file: "pkg/cl/max.go", fn: "Max.Call", locate: "rangebody", params: qp("max", "arg"), outs: qp("max"), ret: tQ, retLean: "Rat", doc: "loop body of max: the new maximum"},
+		{lean: "minBody", file: "pkg/cl/min.go", fn: "Min.Call", locate: "rangebody", params: qp("min", "arg"), outs: qp("min"), ret: tQ, retLean: "Rat", doc: "loop body of min: the new minimum"},
 		{lean: "signumFix", file: "pkg/cl/signum.go", fn: "Signum.Call", locate: "case", params: ip("ta"), pre: []string{"sig:I:0"}, ret: tI, retLean: "Int", doc: "fixnum branch of signum"},
 	}
 }
@@ -1284,7 +1415,9 @@ func init() {
 		b.WriteString("import SlipVerif.Model.Num\n")
 		b.WriteString("set_option linter.unusedVariables false\n")
 		b.WriteString("namespace SlipVerif.Gen.NumImpl\nopen SlipVerif.Num SlipVerif.Num.Impl\n\n")
-		known := map[string]*ntarget{}
+		// compareReals(x, y) on exact values is the sign of x - y (Model/Num.lean `cmpRat`); that it is, for
+		// rational and finite float operands, is obligation gen_compareDispatch_spec over its translated dispatch
+		known := map[string]*ntarget{"compareReals": {lean: "cmpRat", params: qp("x", "y"), ret: tI}}
 		var names []string
 		for _, tg := range numTargets() {
 			src, err := tg.translate(repo, known)
